@@ -5,10 +5,6 @@
 From CM Require Import Lib.Str Lib.Wire Lib.QualSteps Gen.Consts Handshake.Model.
 Open Scope N_scope.
 
-(** effects that can be observed from outside the process *)
-Definition observable (e : effect) : bool :=
-  match e with EAllow _ _ | EEvict _ | ESelfWait _ => false | _ => true end.
-
 Definition effect_eqb (a b : effect) : bool :=
   match a, b with
   | EDecision n r, EDecision m s => str_eqb n m && Bool.eqb r s
@@ -71,17 +67,6 @@ Inductive wop :=
 Section Run.
   Variable is_space : N -> bool.
 
-  (** ** the specification on the implementation's observation (DecisionFunc calls are visible,
-      allowlist look-ups are not: for the allowlist the policy itself is evaluated) *)
-  Definition spec_hs (pol : option policy) (hn : option name) (gs : list (list effect)) : bool :=
-    match pol with
-    | Some (PAllow l) =>
-        negb (existsb (existsb needs_gate) gs) ||
-        match hn with Some n => allow_ok l n && qualifies is_space n | None => false end
-    | Some (PDecision _) => gated_ok is_space true hn gs
-    | None => gated_ok is_space false hn gs
-    end.
-
   (** replay: returns (model agrees, spec holds) *)
   Fixpoint replay (w : world) (ops : list wop) : bool * bool :=
     match ops with
@@ -98,7 +83,7 @@ Section Run.
           result_eqb res (s_res seen) &&
           same_set N.eqb (map c_id (w_cache w')) (s_cache seen) &&
           same_set pair_eqb (map (fun kv => (fst kv, c_id (snd kv))) (w_store w')) (s_store seen) in
-        let spec := spec_hs (w_od w) (h_name h) (s_effects seen) in
+        let spec := spec_hs is_space (w_od w) (h_name h) (s_effects seen) in
         let '(a, s) := replay w' r in
         (agree && a, spec && s)
     end.
